@@ -23,6 +23,17 @@ Clauses of DESIGN.md section C12 and where they are decided
      addressed target to the last transmission, stale downlink packets drained first ......... write_flash.*;
      a False result aborts _internal_flash before anything else is sent ......... internal_flash.modular.*, flash.e2e.failing_write
   UI callbacks (progress / terminate) change nothing that is sent ............ internal_flash.callbacks
+  (extension round)
+  O5 the geometry used is what the addressed target reported in its info reply; unanswered: no record invented / changed ..........
+     update_info.geometry, update_info.unanswered (Cloader._update_info, request_info_update, check_link_and_get_info, Bootloader.get_target)
+  O6 several images on ONE Bootloader / Cloader: every target ends up with exactly its images, a failed flash-write aborts the whole
+     sequence, a second flashing after a success / refusal / termination / abort starts from scratch .......... flash_flash.e2e,
+     internal_flash.second-use; an image for an unknown target is written nowhere .......... internal_flash.unknown-target
+  O7 Bootloader.flash / flash_full (release files, cold boot): which file goes where, override page of the bootloader+softdevice image,
+     geometry asked again after the reconnect (no stale start page), deck / other-platform files never reach the MCU flash, abort on a
+     failed flash-write .......... flash.release.*, flash_full.* (reactive peer model `mkpeer`, ghost flash `ghost_flash`)
+  O2' a packet handed to the link is not modified afterwards (the radio driver serialises it later) .......... upload_buffer.len*,
+     every contract that uses ghost_flash
 
 Bounds (all stated in the `bounded=` option of the contracts; inside a bound every path is explored and every value left symbolic is
 unrestricted): loops over the image are unrolled, so image lengths and page sizes are enumerated (modular: lengths 1..12 with every
@@ -36,14 +47,24 @@ Not covered, and why
   * page_size == 0 is covered (always refused); buffer_pages == 0 is excluded (a target without buffers cannot be flashed);
   * geometry values above 16 bit cannot come out of the info packet ('H' fields) and are excluded; upload_buffer is specified for
     offsets that stay inside a 16-bit page (address + len <= 65535), beyond that struct.error is raised after some frames went out;
-  * Bootloader.flash / flash_full (zip handling, computation of the override page for the nRF51 soft device, warm boot, threads in
-    the link driver) are outside this property's anchor functions; the link driver itself (radio, retries of the radio layer, real
-    time-outs) is external: receive_packet's timeout argument is not interpreted;
-  * image lengths / page counts beyond the enumerated ones (no loop invariant support for `for` loops and symbolic-length bytes);
-    int((len - 1) / page_size) is evaluated in floating point by the library: exact for the enumerated sizes, not proved for lengths
-    >= 2**53;
+  * Bootloader.flash / flash_full are covered for COLD boot with concrete small geometries (flash.release.*, flash_full.*); stubs of the
+    contract there: the zip reader (_get_flash_artifacts_from_zip: zipfile / json / importlib.resources are outside the engine), packaging's
+    Version, the radio reset procedure (Cloader.reset_to_bootloader / reset_to_firmware), scan_for_bootloader, cflib.crtp.get_link_driver,
+    _get_boot_delay.  Warm boot (start_bootloader(warm_boot=True)), the deck update after a warm boot (_flash_deck_incrementally: decks are
+    written through the memory subsystem, not through this bootloader protocol) and read_flash are not covered.  The link driver itself
+    (radio, retries of the radio layer, real time-outs) is external: receive_packet's timeout argument is not interpreted;
+  * end-to-end image lengths / page counts beyond the enumerated ones; the any-length statements are the loop-invariant contracts
+    upload_buffer.inductive and internal_flash.inductive.* (page sizes enumerated AND, in internal_flash.inductive.psANY, any page size
+    1..65535).  int((len - 1) / page_size) is evaluated in floating point by the library: the inductive contracts use float_mode R
+    (mathematical division), so lengths >= 2**53 are not proved;
   * a truncated (2 or 3 byte) reply of the addressed target raises IndexError out of write_flash (stated as such in wf_post; the
     flashing aborts, nothing more is sent).
+
+OBSERVATION 2 (not an obligation; shown, with its actual behaviour, by flash.release.sd-odd-length): Bootloader.flash blanks the first firmware
+page of the nRF51 BEFORE it flashes the bootloader+softdevice image with page override flash_pages - len // page_size; when the length of that
+image is not a whole number of pages the override is one page too high, _internal_flash refuses the image ("Not enough space") and flash() ends
+with an exception, leaving the blanked firmware page behind.  Each single image obeys C12 (the refused one is refused before anything of it is
+sent; the blank page is an image of its own), and the shipped nrf51-s110-and-bl.bin is 94 * 1024 bytes, so this is reported, not counted.
 
 OBSERVATION (not an obligation; C12 only asks for bounded retries and an abort): a positive reply to the sixth and last
 transmission is reported as failed (False, error_code -1) although the target programmed the pages; C12 only asks for a bounded retry
@@ -88,8 +109,8 @@ def cloader(c, link):
     return cl
 
 
-def _upload(lens):
-    @contract('C12', 'upload_buffer.len%d_%d' % (lens[0], lens[-1]), [CL + ':Cloader.upload_buffer'],
+def _upload(lens, thorough_only=False):
+    @contract('C12', 'upload_buffer.len%d_%d' % (lens[0], lens[-1]), [CL + ':Cloader.upload_buffer'], thorough_only=thorough_only,
               clause='buffer-upload messages fit the 32-byte radio frame and cover every byte exactly once at the right offset',
               bounded='buffer lengths %d..%d enumerated' % (lens[0], lens[-1]))
     def k(c):
@@ -115,6 +136,9 @@ def _upload(lens):
             c.ensure('frame%d-layout' % i, "d[:6] == pack('<BBHH', tid, 0x14, page, address + off) and d[6:] == buff[off:off + pl]")
             if i < len(wire) - 1:
                 c.ensure('frame%d-not-empty' % i, 'pl > 0')
+            # the link driver keeps the packet object (the real radio driver queues it and serialises it later): what was handed over
+            # must still be what it was at send time when upload_buffer returns
+            c.ensure('frame%d-not-modified-after-send' % i, 'trace[%d][1][0].header == hdr and bytes(trace[%d][1][0].data) == d' % (i, i))
             off += max(ln - 6, 0)
         c.let('off', off)
         c.ensure('every-byte-covered', 'off == len(buff)')
@@ -123,6 +147,8 @@ def _upload(lens):
 
 for _lo in (0, 21, 42, 63):
     _upload(range(_lo, _lo + 21))
+for _lo in (84, 105, 126, 147):          # thorough tier: up to eight frames (the any-length statement is upload_buffer.inductive)
+    _upload(range(_lo, _lo + 21), thorough_only=True)
 
 
 # ------------------------------------------------------------------------- write_flash
@@ -250,12 +276,17 @@ def wf_early(c):
     c.ensure('no-retry-after-the-reply', 'nsent == %d' % len(kinds))
 
 
-@contract('C12', 'write_flash.reply_lengths', [CL + ':Cloader.write_flash'], clause=WF_CLAUSE,
-          bounded='one arbitrary packet of 0, 1, 2, 3, 5 or 12 data bytes after 0 or 5 lost replies, every other reply lost')
-def wf_lengths(c):
+def _wf_lengths(name, nlosts, ns, thorough_only=False):
+    return contract('C12', name, [CL + ':Cloader.write_flash'], clause=WF_CLAUSE, thorough_only=thorough_only,
+                    bounded='one arbitrary packet of %s data bytes after %s lost replies, every other reply lost' % (
+                        ', '.join(map(str, ns)) if len(ns) < 8 else '%d..%d' % (ns[0], ns[-1]),
+                        ' or '.join(map(str, nlosts))))(lambda c: wf_lengths(c, nlosts, ns))
+
+
+def wf_lengths(c, nlosts, ns):
     args = wf_args(c)
-    nlost = c.choice('nlost', [0, 5])
-    n = c.choice('n', [0, 1, 2, 3, 5, 12])
+    nlost = c.choice('nlost', list(nlosts))
+    n = c.choice('n', list(ns))
     replies = [None] * nlost + [reply_packet(c, 'r', n)] + [None] * (5 - nlost)
     link, wire = mklink(c, [None] + replies + PAD)
     cl = cloader(c, link)
@@ -264,12 +295,20 @@ def wf_lengths(c):
     wf_post(c, wire, replies, 0)
 
 
-@contract('C12', 'write_flash.drain', [CL + ':Cloader.write_flash'],
-          clause=WF_CLAUSE + '; packets already waiting on the downlink (e.g. a stale positive reply) are not taken as the answer',
-          bounded='0..3 arbitrary stale packets; afterwards the first or the second transmission is answered by an arbitrary packet or never')
-def wf_drain(c):
+_wf_lengths('write_flash.reply_lengths', [0, 5], [0, 1, 2, 3, 5, 12])
+_wf_lengths('write_flash.reply_lengths.all', [0, 1, 2, 3, 4, 5], list(range(0, 32)), thorough_only=True)   # every length a radio frame can carry
+
+
+def _wf_drain(name, stales, thorough_only=False):
+    return contract('C12', name, [CL + ':Cloader.write_flash'], thorough_only=thorough_only,
+                    clause=WF_CLAUSE + '; packets already waiting on the downlink (e.g. a stale positive reply) are not taken as the answer',
+                    bounded='%d..%d arbitrary stale packets; afterwards the first or the second transmission is answered by an arbitrary packet '
+                            'or never' % (stales[0], stales[-1]))(lambda c: wf_drain(c, stales))
+
+
+def wf_drain(c, stales):
     args = wf_args(c)
-    nstale = c.choice('nstale', [0, 1, 2, 3])
+    nstale = c.choice('nstale', list(stales))
     stale = [reply_packet(c, 's%d' % i, 4) for i in range(nstale)]
     kinds = c.choice('pattern', [['X'], ['L', 'X'], ['L'] * 6])
     replies = scripted_replies(c, kinds) + [None] * (6 - len(kinds))
@@ -278,6 +317,10 @@ def wf_drain(c):
     c.reset_trace()
     c.call((cl, 'write_flash'), *args)
     wf_post(c, wire, replies, nstale)
+
+
+_wf_drain('write_flash.drain', [0, 1, 2, 3])
+_wf_drain('write_flash.drain.more', [4, 5, 6, 7, 8], thorough_only=True)
 
 
 # (an observation that is NOT a violation of C12 - a positive reply to the sixth and last transmission is reported as failed -
@@ -364,8 +407,9 @@ def modular_setup(c, n, ps, cload_returns):
     return bl, artifact(c, image, tname), ov
 
 
-def _if_modular(lens):
-    @contract('C12', 'internal_flash.modular.len%d_%d' % (lens[0], lens[-1]), [BL + ':Bootloader._internal_flash'], max_paths=6000, clause=IF_CLAUSE,
+def _if_modular(lens, thorough_only=False):
+    @contract('C12', 'internal_flash.modular.len%d_%d' % (lens[0], lens[-1]), [BL + ':Bootloader._internal_flash'], max_paths=20000, clause=IF_CLAUSE,
+              thorough_only=thorough_only,
               bounded='image lengths %d..%d (content symbolic), page sizes 0 .. length + 1 and 1024, 65535 (every page size >= length gives '
                       'a single page); buffer pages (>= 1), flash pages, start page, override, target address: any 16-bit / 8-bit value; '
                       'every pattern of failing flash-write commands' % (lens[0], lens[-1]))
@@ -393,6 +437,8 @@ def _if_modular(lens):
 
 for _lens in ((1, 2, 3, 4, 5, 6), (7, 8), (9,), (10,), (11,), (12,)):
     _if_modular(_lens)
+for _lens in ((13,), (14,), (15,)):       # thorough tier (any length: internal_flash.inductive.*)
+    _if_modular(_lens, thorough_only=True)
 
 
 @contract('C12', 'internal_flash.callbacks', [BL + ':Bootloader._internal_flash'],
@@ -534,9 +580,9 @@ def ack(c, done=1, err=0):
     return c.new(STK + ':CRTPPacket', 0xFF, c.get('_ackdata'))
 
 
-def _e2e(name, geoms, fixed_target=None, note=''):
+def _e2e(name, geoms, fixed_target=None, note='', thorough_only=False):
     @contract('C12', 'flash.e2e.' + name, [BL + ':Bootloader._internal_flash', CL + ':Cloader.upload_buffer', CL + ':Cloader.write_flash'],
-              clause=E2E_CLAUSE, max_paths=6000,
+              clause=E2E_CLAUSE, max_paths=6000, thorough_only=thorough_only,
               bounded='(page size, buffer pages, image length) in %s%s; image content, target address, flash pages, start page and '
                       'override page symbolic (16 bit); every flash-write acknowledged at once' % (
                           geoms if len(geoms) < 12 else '%d combinations from %s to %s' % (len(geoms), geoms[0], geoms[-1]), note))
@@ -568,40 +614,61 @@ for _ps in (25, 26, 60):
 _e2e('real.nrf51', [(1024, 1, 2 * 1024 + 17)], fixed_target='nrf51')
 _e2e('tenbuffers', [(128, 10, 11 * 128 + 50)], fixed_target='stm32', note=' (12 pages: one full buffer set, one full page, one partial page)')
 
+# thorough tier: larger geometries of the same clause
+for _ps, _bp in ((4, 1), (4, 2), (4, 3), (1, 4), (2, 4), (3, 4), (4, 4), (5, 2)):
+    _e2e('ps%d.bp%d' % (_ps, _bp), [(_ps, _bp, n) for n in range(1, (2 * _bp + 1) * _ps + 2)], thorough_only=True)
+for _ps in (25, 26, 60):
+    _e2e('ps%d.bp3' % _ps, [(_ps, 3, n) for n in (_ps, 3 * _ps, 3 * _ps + 1, 6 * _ps, 7 * _ps - 1)], thorough_only=True)
+_e2e('real.stm32', [(1024, 10, 11 * 1024 + 50)], fixed_target='stm32', thorough_only=True,
+     note=' (the STM32F405 of the Crazyflie 2.x: 1024-byte pages, 10 buffers; 12 pages)')
+_e2e('real.nrf51.exact', [(1024, 1, 3 * 1024)], fixed_target='nrf51', thorough_only=True, note=' (exact multiple of the page size)')
 
-@contract('C12', 'flash.e2e.failing_write', [BL + ':Bootloader._internal_flash', CL + ':Cloader.upload_buffer', CL + ':Cloader.write_flash'],
-          clause=E2E_CLAUSE + ': a flash-write command that is answered negatively, or not answered by the addressed target in 6 '
-                 'transmissions (replies lost or packets of somebody else arriving instead), aborts the flashing with an exception '
-                 'and nothing more is sent',
-          bounded='page size 2, 2 buffer pages, 11-byte image (three flash-write commands); the first, second or third command fails')
-def e2e_failing(c):
-    ps, bp, n = 2, 2, 11
-    which = c.choice('which', [0, 1, 2])
-    how = c.choice('how', ['nack', 'lost', 'stray'])
 
-    def script(c):
-        out = []
-        for _ in range(which):
-            out += [None, ack(c)]
-        if how == 'nack':
-            out += [None, ack(c, 0, 2)]
-        elif how == 'lost':
-            out += [None] * 7
-        else:
-            out += [None] + scripted_replies(c, ['A'] * 6)
-        return out + [None] * 40      # should the flashing go on regardless: every later reply is lost
-    wire = e2e_setup(c, ps, bp, n, script, require_fits=True)
-    c.ensure('aborts-with-exception', "raised == 'Exception'")
-    ghost_target(c, wire, ps, bp, n)
-    txs = [w for w in wire if w[0] == 'tx']
-    cmds = []
-    for t in txs:
-        c.let('d', t[2])
-        cmds.append(c.snapshot('_cmd', 'd[1]'))
-    c.let('cmds', tuple(cmds))
-    c.ensure('failed-command-sent-a-bounded-number-of-times', 'sum(1 for x in cmds if x == 0x18) == %d' % (which + (1 if how == 'nack' else 6)))
-    c.ensure('nothing-sent-after-the-failed-command', 'len(cmds) > 0 and cmds[-1] == 0x18')
-    c.ensure('no-load-after-failure', 'sum(1 for x in cmds if x == 0x14) == %d' % (2 * (which + 1)))
+def _e2e_failing(name, ps, bp, n, thorough_only=False):
+    npages = (n + ps - 1) // ps
+    nwr = (npages + bp - 1) // bp
+    frames = (ps + 24) // 25            # load-buffer frames per full page
+
+    @contract('C12', 'flash.e2e.' + name, [BL + ':Bootloader._internal_flash', CL + ':Cloader.upload_buffer', CL + ':Cloader.write_flash'],
+              clause=E2E_CLAUSE + ': a flash-write command that is answered negatively, or not answered by the addressed target in 6 '
+                     'transmissions (replies lost or packets of somebody else arriving instead), aborts the flashing with an exception '
+                     'and nothing more is sent', thorough_only=thorough_only, max_paths=6000,
+              bounded='page size %d, %d buffer pages, %d-byte image (%d flash-write commands); any one of the commands fails' % (ps, bp, n, nwr))
+    def e2e_failing(c):
+        which = c.choice('which', list(range(nwr)))
+        how = c.choice('how', ['nack', 'lost', 'stray'])
+
+        def script(c):
+            out = []
+            for _ in range(which):
+                out += [None, ack(c)]
+            if how == 'nack':
+                out += [None, ack(c, 0, 2)]
+            elif how == 'lost':
+                out += [None] * 7
+            else:
+                out += [None] + scripted_replies(c, ['A'] * 6)
+            return out + [None] * (6 * nwr + 40)      # should the flashing go on regardless: every later reply is lost
+        wire = e2e_setup(c, ps, bp, n, script, require_fits=True)
+        c.ensure('aborts-with-exception', "raised == 'Exception'")
+        ghost_target(c, wire, ps, bp, n)
+        txs = [w for w in wire if w[0] == 'tx']
+        cmds = []
+        for t in txs:
+            c.let('d', t[2])
+            cmds.append(c.snapshot('_cmd', 'd[1]'))
+        c.let('cmds', tuple(cmds))
+        c.ensure('failed-command-sent-a-bounded-number-of-times', 'sum(1 for x in cmds if x == 0x18) == %d' % (which + (1 if how == 'nack' else 6)))
+        c.ensure('nothing-sent-after-the-failed-command', 'len(cmds) > 0 and cmds[-1] == 0x18')
+        loaded = min(bp * (which + 1), npages)          # pages loaded when the failing command goes out
+        nframes = sum((min(ps, n - q * ps) + 24) // 25 for q in range(loaded))
+        c.ensure('no-load-after-failure', 'sum(1 for x in cmds if x == 0x14) == %d' % nframes)
+    return e2e_failing
+
+
+_e2e_failing('failing_write', 2, 2, 11)
+_e2e_failing('failing_write.ps3.bp3', 3, 3, 31, thorough_only=True)
+_e2e_failing('failing_write.ps30.bp2', 30, 2, 5 * 30 + 7, thorough_only=True)
 
 
 # ------------------------------------------------------------------------- upload_buffer for ANY buffer length (loop invariant)
@@ -669,20 +736,26 @@ def upload_inductive(c):
 
 # ------------------------------------------------------------------------- _internal_flash for ANY image length (loop invariant, page size enumerated)
 
-def _if_inductive(ps):
-    @contract('C12', 'internal_flash.inductive.ps%d' % ps, [BL + ':Bootloader._internal_flash'], float_mode='R',
+def _if_inductive(ps, thorough_only=False):
+    @contract('C12', 'internal_flash.inductive.ps%s' % ps, [BL + ':Bootloader._internal_flash'], float_mode='R', thorough_only=thorough_only,
               clause='flashing an image of ANY length: loop invariant "ctr < buffer_pages buffers are loaded, they hold image pages k-ctr .. k-1"; in an '
                      'arbitrary iteration k page k of the image (bytes [k*ps, min((k+1)*ps, len))) is loaded into buffer ctr, and when the buffers are '
                      'full exactly one flash-write programs flash pages first+k-ctr .. first+k from buffers 0 .. ctr; every programmed page is inside '
                      'the image range and below the flash size; the closing flash-write programs the remaining ctr pages ending at the last image '
                      'page; a failed flash-write raises at once.  (Buffer contents follow by induction: buffer j is loaded exactly in the iteration '
                      'whose ctr is j, and ctr restarts at 0 after every flash-write.)',
-              bounded='page size %d (1, 2, 3, 7, 25, 26, 1024 enumerated: with a concrete page size the page arithmetic is linear); image length, '
-                      'buffer pages, flash pages, start page, override page: any value' % ps)
+              bounded=('page size: ANY value 1..65535 (non-linear page arithmetic, decided by z3 here; the enumerated page sizes stay as the linear '
+                       'proofs); image length, buffer pages, flash pages, start page, override page: any value') if ps == 'ANY' else
+                      ('page size %s (1, 2, 3, 7, 25, 26, 1024 enumerated: with a concrete page size the page arithmetic is linear); image length, '
+                       'buffer pages, flash pages, start page, override page: any value' % ps))
     def k(c):
         tname = c.choice('target', ['stm32', 'nrf51'])
         tid = {'stm32': 0xFF, 'nrf51': 0xFE}[tname]
-        c.int('addr', 0, 255), c.let('ps', ps), c.int('bp', 1, 65535), c.int('fp', 0, 65535), c.int('sp', 0, 65535)
+        c.int('addr', 0, 255), c.int('bp', 1, 65535), c.int('fp', 0, 65535), c.int('sp', 0, 65535)
+        if ps == 'ANY':
+            c.int('ps', 1, 65535)
+        else:
+            c.let('ps', ps)
         has_override = c.choice('has_override', [False, True])
         ov = c.int('override', 0, 65535) if has_override else None
         c.let('first', ov if has_override else c.get('sp'))
@@ -743,3 +816,585 @@ def _if_inductive(ps):
 
 for _ps in (1, 2, 3, 7, 25, 26, 1024):
     _if_inductive(_ps)
+_if_inductive('ANY')
+
+
+# ========================================================================= extension round (2026-09-27)
+# New clauses: where the geometry comes from (info packet -> Target record, cache per Cloader), sequences of images on one
+# Bootloader (_flash_flash, flash, flash_full), second uses of the same objects, packets kept by the link after send_packet.
+
+# ------------------------------------------------------------------------- the geometry the flashing relies on: Cloader._update_info
+
+INFO_CLAUSE = ('the geometry used for flashing (page size, buffer pages, flash pages, start page, address) is exactly what the addressed '
+               'target reported in its info reply [addr, 0x10, pageSize:u16, nBuffPages:u16, nFlashPages:u16, flashStart:u16, cpuid(12), '
+               'protocol version] (little endian; assumed firmware layout, part of the trusted base); replies of the other target, of '
+               'another command or on another port are not taken as the answer')
+
+CPUID = bytes(range(0x31, 0x3D))
+
+
+def info_reply(c, name, tid_expr, extra):
+    """info reply of the target `tid_expr`: geometry symbolic, cpuid concrete (only a string is formatted from it), `extra` bytes after
+    the cpuid (protocol version, bootloader version) concrete for the same reason"""
+    for f in ('ps', 'bp', 'fp', 'sp'):
+        c.int(name + '_' + f, 0, 65535)
+    c.snapshot(name + '_data', "bytearray(pack('<BBHHHH', %s, 0x10, %s_ps, %s_bp, %s_fp, %s_sp) + %r + %r)" % (tid_expr, name, name, name, name, CPUID, bytes(extra)))
+    return c.new(STK + ':CRTPPacket', 0xFF, c.get(name + '_data'))
+
+
+def other_packets(c, kinds, tid, cmd):
+    """scripted downlink before the answer: 'L' nothing arrives, 'O' an arbitrary 4-byte packet that is NOT an answer of target `tid`
+    to command `cmd` (another port, another target - e.g. the same command answered by the other target -, another command)"""
+    out = []
+    for i, kd in enumerate(kinds):
+        if kd == 'L':
+            out.append(None)
+            continue
+        r = reply_packet(c, 'o%d' % i, 4)
+        c.let('o%d' % i, r)
+        c.require('not (o%d.header == 0xFF and o%d.data[0] == %d and o%d.data[1] == %d)' % (i, i, tid, i, cmd))
+        out.append(r)
+    return out
+
+
+BEFORE_QUICK = [[], ['L'], ['O'], ['L', 'O'], ['O', 'L']]
+BEFORE_MORE = [['L', 'L'], ['O', 'O'], ['L', 'L', 'L'], ['O', 'L', 'O'], ['L', 'O', 'L'], ['O', 'O', 'O'], ['L', 'O', 'O', 'L'], ['O', 'L', 'L', 'O', 'L']]
+
+
+def _update_info_geometry(name, patterns, thorough_only=False):
+    return contract('C12', name, [CL + ':Cloader._update_info', CL + ':Cloader.request_info_update', CL + ':Cloader.check_link_and_get_info',
+                                  BL + ':Bootloader.get_target'], thorough_only=thorough_only,
+                    clause=INFO_CLAUSE + '; a record that exists already is refreshed by _update_info / check_link_and_get_info and returned '
+                           'as it is (no traffic) by request_info_update / get_target',
+                    bounded='the info reply arrives after one of the patterns %r of lost replies (L) / 4-byte packets of somebody else (O); cpuid and '
+                            'the bytes after it (none, protocol version, protocol + bootloader version) concrete; the target is unknown so far or '
+                            'known with another geometry' % (patterns,))(lambda c: update_info_geometry(c, patterns))
+
+
+def update_info_geometry(c, patterns):
+    tid = c.choice('tid', [0xFF, 0xFE])
+    c.let('tid', tid)
+    via = c.choice('via', ['_update_info', 'check_link_and_get_info', 'request_info_update', 'get_target'])
+    before = c.choice('before', patterns)
+    extra = c.choice('extra', [b'', b'\x10', bytes([0x10, 1, 0x80, 2, 3])])
+    known = c.choice('known', [False, True])
+    r = info_reply(c, 'r', 'tid', extra)
+    link, wire = mklink(c, other_packets(c, before, tid, 0x10) + [r, None, None, None])
+    bl = c.new(BL + ':Bootloader', None)
+    c.let('bl', bl)
+    c.let('link', link)
+    c.snapshot('cl', 'bl._cload')
+    c.snapshot('_', 'setattr(cl, "link", link)')
+    if known:
+        c.int('addr', 0, 255), c.int('ps', 0, 65535), c.int('bp', 0, 65535), c.int('fp', 0, 65535), c.int('sp', 0, 65535)
+        target_info(c, tid)
+        c.snapshot('_', 'cl.targets.update({%d: tinfo})' % tid)
+    c.virtual_time(clock=[float(i) for i in range(16)])
+    c.reset_trace()
+    c.call((bl, via) if via == 'get_target' else (c.get('cl'), via), tid)
+    c.ensure('no-exception', 'raised is None')
+    c.snapshot('t', 'cl.targets[tid]')
+    c.ensure('only-this-target-touched', 'tuple(cl.targets.keys()) == (tid,)')
+    txs = [w for w in wire if w[0] == 'tx']
+    if via in ('request_info_update', 'get_target'):
+        c.ensure('result-is-the-record-of-the-target', 'is_same(result, t)')
+    else:
+        c.ensure('answered', 'result is True')
+    if known and via in ('request_info_update', 'get_target'):
+        c.ensure('known-target-no-traffic-record-unchanged', 'len(trace) == 0 and is_same(t, tinfo) and (t.addr, t.page_size, t.buffer_pages, '
+                 't.flash_pages, t.start_page) == (addr, ps, bp, fp, sp)')
+        return
+    c.ensure('geometry-is-what-the-target-reported', 't.page_size == r_ps and t.buffer_pages == r_bp and t.flash_pages == r_fp and t.start_page == r_sp')
+    c.ensure('address-is-the-target-id', 't.addr == tid and t.id == tid')
+    mapping = extra[:1] == b'\x10' and tid == 0xFF       # protocol 0x10: the STM32 is also asked for its flash mapping [tid, 0x12]
+    c.ensure('request-sent', 'len(trace) >= 2')
+    for i, w in enumerate(txs):
+        c.let('hdr', w[1])
+        c.let('d', w[2])
+        c.ensure('tx%d-is-an-info-request-nothing-is-written' % i, 'hdr == 0xFF and d[0] == tid and d[1] == %d and len(d) == 2' % (
+            0x12 if mapping and i == len(txs) - 1 else 0x10))
+
+
+_update_info_geometry('update_info.geometry', BEFORE_QUICK)
+_update_info_geometry('update_info.geometry.more', BEFORE_MORE, thorough_only=True)
+
+
+@contract('C12', 'update_info.unanswered', [CL + ':Cloader._update_info', CL + ':Cloader.request_info_update', CL + ':Cloader.check_link_and_get_info'],
+          clause=INFO_CLAUSE + '; a target that does not answer within the time-out leaves no geometry behind: no record is invented, an '
+                 'existing record is not changed, and asking for the geometry of an unknown target fails instead of flashing with defaults',
+          bounded='16 clock readings one second apart; every reply lost or a 4-byte packet of somebody else')
+def update_info_unanswered(c):
+    tid = c.choice('tid', [0xFF, 0xFE])
+    c.let('tid', tid)
+    kind = c.choice('kind', ['L', 'O'])
+    via = c.choice('via', ['_update_info', 'check_link_and_get_info', 'request_info_update'])
+    known = c.choice('known', [False, True]) if via != 'request_info_update' else False
+    link, wire = mklink(c, other_packets(c, [kind] * 3, tid, 0x10) + [None] * 12)
+    cl = cloader(c, link)
+    if known:
+        c.int('addr', 0, 255), c.int('ps', 0, 65535), c.int('bp', 0, 65535), c.int('fp', 0, 65535), c.int('sp', 0, 65535)
+        target_info(c, tid)
+        c.snapshot('_', 'cl.targets.update({%d: tinfo})' % tid)
+    c.virtual_time(clock=[float(i) for i in range(16)])
+    c.reset_trace()
+    c.call((cl, via), tid)
+    if via == 'request_info_update':
+        c.ensure('no-geometry-no-result', "raised == 'KeyError'")
+    else:
+        c.ensure('reported-as-failed', 'raised is None and result is False')
+    if known:
+        c.ensure('existing-record-unchanged', 'len(cl.targets) == 1 and is_same(cl.targets[tid], tinfo) and (tinfo.addr, tinfo.page_size, tinfo.buffer_pages, '
+                 'tinfo.flash_pages, tinfo.start_page) == (addr, ps, bp, fp, sp)')
+    else:
+        c.ensure('no-record-invented', 'len(cl.targets) == 0')
+    c.ensure('gives-up', "sum(1 for e in trace if e[0] == 'link.send_packet') <= 16")
+
+
+# ------------------------------------------------------------------------- several images on one Bootloader: reactive peer + ghost flash
+
+def _ints(I, v):
+    """python list of the items of a bytes-like value of either back end (items are ints or symbolic bytes)"""
+    if I is None:
+        return list(v)
+    from pyvc import ops
+    return list(ops.seq_items(v))
+
+
+def mkpeer(c, infos=None, nack_at=None, name='link', uri='radio://0/0/2M/B1CAFEBABE'):
+    """Reactive model of the peer behind the radio link: both targets of a Crazyflie 2.x in bootloader mode.  Unlike the scripted link
+    (mklink) it answers what was asked: a flash-write command [addr, 0x18, ...] is answered by [addr, 0x18, done, error] (done = 1 except
+    for the command number `nack_at`, counted over the whole run, which is answered done = 0 / error 2), an info request [addr, 0x10] by
+    the next prepared info reply of that target (infos[addr], used up in order; none left: no answer), everything else is not answered;
+    receive_packet returns None when nothing is pending (so the drain of write_flash ends).  Everything transmitted is recorded at send
+    time, in order, in st['wire'] as ('tx', header, data copy); several links (after a reconnect) share the record.
+    The addressing byte and the command byte of every transmitted frame must be concrete."""
+    st = {'wire': [], 'pending': [], 'nwrite': 0, 'infos': {k: list(v) for k, v in (infos or {}).items()}, 'c': c, 'nack_at': nack_at}
+    return peer_link(c, st, name, uri), st
+
+
+def peer_link(c, st, name, uri):
+    def send(I, args, kw):
+        pk = args[0]
+        if I is None:
+            hdr, data = pk.header, bytes(pk.data)
+        else:
+            hdr, data = I.getattr(pk, 'header'), I.call(I.models.builtin(I, 'bytes'), [I.getattr(pk, 'data')], {})
+        st['wire'].append(('tx', hdr, data, pk))
+        d = _ints(I, data)
+        assert all(isinstance(x, int) for x in d[:2]), 'reactive peer needs concrete address / command bytes'
+        del st['pending'][:]
+        if hdr == 0xFF and len(d) >= 2:
+            if d[1] == 0x18:
+                bad = st['nack_at'] is not None and st['nwrite'] == st['nack_at']
+                st['nwrite'] += 1
+                st['pending'].append(st['c'].new(STK + ':CRTPPacket', 0xFF, bytearray([d[0], 0x18, 0 if bad else 1, 2 if bad else 0])))
+            elif d[1] == 0x10 and st['infos'].get(d[0]):
+                st['pending'].append(st['infos'][d[0]].pop(0))
+        return None
+
+    def recv(I, args, kw):
+        r = st['pending'].pop(0) if st['pending'] else None
+        st['wire'].append(('rx', r, None, None))
+        return r
+    return c.ext(name, attrs={'uri': uri}, returns={'send_packet': send, 'receive_packet': recv})
+
+
+def ghost_flash(c, wire, geom, prefix=''):
+    """Ghost model of the targets: replays every transmitted frame, in order (load-buffer / write-flash semantics of the module
+    docstring; every transmitted write-flash command is taken as executed).  geom: {addr: (page size, buffer pages, flash pages)}, all
+    concrete.  States, as obligations: every frame is a known command on the bootloader port, fits the radio frame, is not modified
+    after it was handed to the link, stays inside the buffers / the flash of the addressed target.
+    Returns {(addr, page): tuple of the bytes the page was programmed with (None = a buffer byte never loaded)}."""
+    buf = {a: [[None] * g[0] for _ in range(g[1])] for a, g in geom.items()}
+    flash = {}
+    k = -1
+    for w in wire:
+        if w[0] != 'tx':
+            continue
+        k += 1
+        c.let('hdr', w[1])
+        c.let('d', w[2])
+        c.let('_pk', w[3])
+        items = list(c.snapshot('_items', 'tuple(d)'))
+        c.ensure('%stx%d-fits-radio-frame' % (prefix, k), 'hdr == 0xFF and 2 <= len(d) <= 31')
+        c.ensure('%stx%d-not-modified-after-send' % (prefix, k), '_pk.header == hdr and bytes(_pk.data) == d')
+        a, cmd = items[0], items[1]
+        if cmd in (0x10, 0x12) and len(items) == 2:
+            continue                                                     # info / mapping request: writes nothing
+        known = a in geom and ((cmd == 0x14 and len(items) >= 6) or (cmd == 0x18 and len(items) == 8)) and \
+            all(isinstance(x, int) for x in items[2:6] + (items[6:8] if cmd == 0x18 else []))
+        c.let('_b', known)
+        c.ensure('%stx%d-is-a-known-command-to-a-known-target' % (prefix, k), '_b')
+        if not known:
+            continue
+        ps, bp, fp = geom[a]
+        if cmd == 0x14:
+            slot, off, payload = le16(items[2], items[3]), le16(items[4], items[5]), items[6:]
+            inside = slot < bp and off + len(payload) <= ps
+            c.let('_b', inside)
+            c.ensure('%stx%d-load-stays-inside-buffer' % (prefix, k), '_b')
+            if inside:
+                buf[a][slot][off:off + len(payload)] = payload
+        else:
+            bufpage, page, count = le16(items[2], items[3]), le16(items[4], items[5]), le16(items[6], items[7])
+            inside = count >= 1 and bufpage + count <= bp and page + count <= fp
+            c.let('_b', inside)
+            c.ensure('%stx%d-write-takes-existing-buffers-and-stays-inside-flash' % (prefix, k), '_b')
+            for j in range(count if inside else 0):
+                flash[(a, page + j)] = tuple(buf[a][bufpage + j])
+    return flash
+
+
+def expect_flash(c, flash, expected, prefix='', complete=True):
+    """`flash` (from ghost_flash) holds exactly `expected`: [(addr, first page, image value, length, page size)] in flashing order (a later
+    image overrides an earlier one on a shared page).  The bytes of a last, partial page behind the end of the image are not constrained.
+    complete=False (flashing was aborted): pages of the images may be missing, but nothing else may have been programmed."""
+    want = {}
+    for a, first, image, n, ps in expected:
+        for q in range((n + ps - 1) // ps):
+            want.setdefault((a, first + q), []).append((image, q * ps, min(ps, n - q * ps)))
+    for key in sorted(set(flash) | set(want)):
+        name = '%spage-%02X-%d' % (prefix, key[0], key[1])
+        if key not in want:
+            c.ensure(name + '-is-outside-every-image-and-must-not-be-programmed', 'False')
+        elif key not in flash:
+            if complete:
+                c.ensure(name + '-of-an-image-must-be-programmed', 'False')
+        else:
+            # aborted sequence: a page shared by two images holds the page of either (the later one may not have got there)
+            alts = []
+            for i, (image, lo, ln) in enumerate(want[key][-1:] if complete else want[key]):
+                c.let('_got%d' % i, flash[key][:ln])
+                c.let('_img%d' % i, image)
+                alts.append('(all(x is not None for x in _got%d) and bytes(_got%d) == bytes(_img%d[%d:%d]))' % (i, i, i, lo, lo + ln))
+            c.ensure(name + '-holds-exactly-its-image-page', ' or '.join(alts))
+
+
+def target_rec(c, tid, ps, bp, fp, sp):
+    """geometry record of target `tid`, built by the real constructor; the address is the target id (as _update_info sets it)"""
+    t = c.new(BT + ':Target', tid)
+    for field, v in (('addr', tid), ('page_size', ps), ('buffer_pages', bp), ('flash_pages', fp), ('start_page', sp)):
+        c.set(t, field, v)
+    return t
+
+
+def real_bootloader(c, link, records, protocol=0x10):
+    """real Bootloader with its real Cloader on `link`, knowing the targets `records` ({tid: Target record})"""
+    bl = c.new(BL + ':Bootloader', None)
+    c.let('bl', bl)
+    c.let('link', link)
+    c.snapshot('cl', 'bl._cload')
+    c.snapshot('_', 'setattr(cl, "link", link)')
+    c.set(bl, 'protocol_version', protocol)
+    c.set(c.get('cl'), 'protocol_version', protocol)
+    for tid, t in records.items():
+        c.let('_t', t)
+        c.snapshot('_', 'cl.targets.update({%d: _t})' % tid)
+    return bl
+
+
+SEQ_GEOM = {0xFF: (3, 2, 9, 2), 0xFE: (2, 1, 8, 3)}      # target id -> page size, buffer pages, flash pages, start page
+TNAME = {0xFF: 'stm32', 0xFE: 'nrf51'}
+
+
+def n_writes(n, ps, bp):
+    npages = (n + ps - 1) // ps
+    return (npages + bp - 1) // bp
+
+
+SEQ_CLAUSE = ('several images flashed one after the other on the same Bootloader / Cloader (as Bootloader._flash_flash does for the files of '
+              'a release): in the end the flash of every target holds exactly the images addressed to it, each starting at the start page of '
+              'ITS target, nothing else is programmed; of two images for the same target the later one wins on shared pages; a flash-write '
+              'command that is answered negatively aborts the whole sequence with an exception: nothing more is sent, no later image is started')
+
+
+def _flash_flash_e2e(name, orders, lens_stm, lens_nrf, thorough_only=False):
+    return contract('C12', name, [BL + ':Bootloader._flash_flash', BL + ':Bootloader._internal_flash', CL + ':Cloader.upload_buffer',
+                                  CL + ':Cloader.write_flash'], clause=SEQ_CLAUSE, max_paths=20000, thorough_only=thorough_only,
+                    bounded='images (content symbolic) for the target sequences %r (FF stm32, FE nrf51; a later image for the same target overrides the '
+                            'earlier one); lengths %r (stm32) and %r (nrf51); concrete geometries %r (page size, buffers, flash pages, start page); '
+                            'every flash-write acknowledged, or exactly one of them (any one) answered negatively' % (
+                                [tuple('%02X' % t for t in o) for o in orders], lens_stm, lens_nrf, SEQ_GEOM))(
+                                    lambda c: flash_flash_e2e(c, orders, lens_stm, lens_nrf))
+
+
+def flash_flash_e2e(c, orders, lens_stm, lens_nrf):
+    order = c.choice('order', list(orders))
+    lens = [c.choice('n%d' % i, list(lens_stm) if t == 0xFF else list(lens_nrf)) for i, t in enumerate(order)]
+    total = sum(n_writes(n, SEQ_GEOM[t][0], SEQ_GEOM[t][1]) for n, t in zip(lens, order))
+    nack_at = c.choice('nack_at', [None] + list(range(total)))
+    images = [c.bytes('image%d' % i, n) for i, n in enumerate(lens)]
+    link, st = mkpeer(c, nack_at=nack_at)
+    bl = real_bootloader(c, link, {t: target_rec(c, t, *SEQ_GEOM[t]) for t in SEQ_GEOM})
+    arts = [artifact(c, im, TNAME[t]) for im, t in zip(images, order)]
+    c.reset_trace()
+    c.call((bl, '_flash_flash'), c.list(arts), c.list([]))
+    flash = ghost_flash(c, st['wire'], {t: g[:3] for t, g in SEQ_GEOM.items()})
+    expected = [(t, SEQ_GEOM[t][3], im, n, SEQ_GEOM[t][0]) for t, im, n in zip(order, images, lens)]
+    cmds = [_cmd_of(c, w) for w in st['wire'] if w[0] == 'tx']
+    c.let('cmds', tuple(cmds))
+    if nack_at is None:
+        c.ensure('no-error', 'raised is None')
+        expect_flash(c, flash, expected)
+    else:
+        c.ensure('aborts-with-exception', "raised == 'Exception'")
+        c.ensure('nothing-sent-after-the-failed-command', 'len(cmds) > 0 and cmds[-1] == 0x18 and sum(1 for x in cmds if x == 0x18) == %d' % (nack_at + 1))
+        expect_flash(c, flash, expected, complete=False)
+    # (the order of images for DIFFERENT targets is not constrained: it cannot be seen in the flash.  For the same target the later image
+    #  must win on shared pages - that is part of expect_flash.)
+
+
+_flash_flash_e2e('flash_flash.e2e', [(0xFF, 0xFE), (0xFE, 0xFF), (0xFE, 0xFE), (0xFF, 0xFF)], [1, 7, 12], [1, 5])
+_flash_flash_e2e('flash_flash.e2e.three', [(0xFF, 0xFE, 0xFF), (0xFE, 0xFF, 0xFE), (0xFE, 0xFE, 0xFF), (0xFF, 0xFF, 0xFF)], [3, 13, 18], [2, 7, 10],
+                 thorough_only=True)
+
+
+def _cmd_of(c, w):
+    c.let('d', w[2])
+    return c.snapshot('_cmd', 'd[1]')
+
+
+
+
+@contract('C12', 'internal_flash.second-use', [BL + ':Bootloader._internal_flash', CL + ':Cloader.upload_buffer', CL + ':Cloader.write_flash'],
+          clause='a second flashing on the same Bootloader / Cloader (after a flashing that succeeded, was refused, was terminated by the UI or '
+                 'was aborted by a negative flash-write reply) starts from scratch: it loads every buffer it programs itself and programs exactly '
+                 'its own image from the start page; over both runs nothing outside the two images is programmed',
+          max_paths=6000,
+          bounded='geometries %r; first image 7 or 12 bytes (stm32) / 5 bytes (nrf51), or 40 bytes (refused); second image 1, 4, 7 (stm32) / 1, 3, 5 '
+                  '(nrf51) bytes; first run: ok, refused, terminated before page 0 / 1 / 2, or any one flash-write answered negatively' % (SEQ_GEOM,))
+def internal_flash_second_use(c):
+    t = c.choice('target', [0xFF, 0xFE])
+    ps, bp, fp, sp = SEQ_GEOM[t]
+    first = c.choice('first', ['ok', 'refused', 'stop0', 'stop1', 'stop2', 'nack0', 'nack1'] + (['nack2'] if t == 0xFE else []))
+    n0 = 40 if first == 'refused' else (c.choice('n0', [7, 12]) if t == 0xFF else 5)
+    n1 = c.choice('n1', [1, 4, 7] if t == 0xFF else [1, 3, 5])
+    image0, image1 = c.bytes('image0', n0), c.bytes('image1', n1)
+    link, st = mkpeer(c, nack_at=int(first[4:]) if first.startswith('nack') else None)
+    bl = real_bootloader(c, link, {x: target_rec(c, x, *SEQ_GEOM[x]) for x in SEQ_GEOM})
+    if first.startswith('stop'):
+        asks = [False] * int(first[4:]) + [True] + [False] * 20
+        it = iter(asks)
+        c.let('tcb', c.ext('terminate_cb', returns={'()': lambda *_a: next(it)}))
+        c.snapshot('_', 'setattr(bl, "terminate_flashing_cb", tcb)')
+    c.reset_trace()
+    c.call((bl, '_internal_flash'), artifact(c, image0, TNAME[t]))
+    c.ensure('first-run-ends-as-scripted', "raised is None" if first == 'ok' else "raised == 'Exception'")
+    mark = len(st['wire'])
+    c.reset_trace()
+    c.call((bl, '_internal_flash'), artifact(c, image1, TNAME[t]))
+    c.ensure('second-run-succeeds', 'raised is None')
+    geom = {x: g[:3] for x, g in SEQ_GEOM.items()}
+    flash2 = ghost_flash(c, st['wire'][mark:], geom, prefix='run2-')
+    expect_flash(c, flash2, [(t, sp, image1, n1, ps)], prefix='run2-')
+    flash = ghost_flash(c, st['wire'], geom, prefix='both-')
+    expect_flash(c, flash, ([] if first == 'refused' else [(t, sp, image0, n0, ps)]) + [(t, sp, image1, n1, ps)], prefix='both-', complete=False)
+
+
+# ------------------------------------------------------------------------- Bootloader.flash / flash_full: the files of a release
+
+FLASH_CLAUSE = ('Bootloader.flash (the files of a release zip, cold boot, Crazyflie 2.x): in the end the flash of every target holds exactly the '
+                'firmware images addressed to it, each at the start page its target reports AT THAT TIME (the nRF51 start page moves when a new '
+                'soft device is flashed: the geometry is asked again over the new link, no stale record is used); the bootloader+softdevice image '
+                'is flashed only when needed, then it ends with the last flash page (page override = flash pages - pages of the image; the '
+                'library\'s convention) and the first firmware page of the nRF51 is blanked with one page of 0xFF beforehand; files for decks or '
+                'another platform are not written into the flash of the MCUs; nothing else is programmed; a release whose soft-device '
+                'requirement cannot be met is refused before anything is sent; a flash-write command answered negatively aborts everything '
+                'with an exception, nothing more is sent')
+
+NRF_OLD = (2, 1, 120, 88)       # nRF51 with soft device s110: page size, buffer pages, flash pages, start page
+NRF_NEW = (2, 1, 120, 108)      # ... after the new bootloader + soft device s130 started
+STM = SEQ_GEOM[0xFF]
+# release geometries: STM32, nRF51 before / after the soft device update, lengths of the STM32 / nRF51 firmware and of the
+# bootloader+softdevice image (a whole number of nRF51 pages; 'sd-odd-length' adds one byte)
+REL_SMALL = {'stm': STM, 'old': NRF_OLD, 'new': NRF_NEW, 'n_stm': 7, 'n_nrf': 3, 'n_sd': 4}
+# pages of more than one load-buffer frame (25 payload bytes per frame), the blank page too
+REL_FRAMES = {'stm': (30, 2, 9, 2), 'old': (27, 1, 120, 88), 'new': (27, 1, 120, 108), 'n_stm': 2 * 30 + 26, 'n_nrf': 27 + 5, 'n_sd': 2 * 27}
+
+
+def bl_target(c, platform, target, typ, provides=(), requires=()):
+    return c.namedtuple(BL + ':Target', platform, target, typ, c.list(list(provides)), c.list(list(requires)))
+
+
+def info_packet(c, tid, geom, extra=b'\x10'):
+    import struct
+    return c.new(STK + ':CRTPPacket', 0xFF, bytearray(struct.pack('<BBHHHH', tid, 0x10, *geom) + CPUID + extra))
+
+
+def flash_setup(c, scenario, nack_at, progress=False, connect='linked', G=None):
+    """real Bootloader / Cloader on the reactive peer; the zip reader, packaging.version.Version, the radio reset procedure
+    (Cloader.reset_to_bootloader) and cflib.crtp.get_link_driver are stubs of the contract (hardware / file system).
+    connect='linked': the link is open and both targets are known; 'found' / 'not-found': nothing is open or known yet, the scan for a
+    bootloader (a stub) finds one / none, the geometry of both targets comes out of their info replies"""
+    G = G or REL_SMALL
+    STM, NRF_OLD, NRF_NEW = G['stm'], G['old'], G['new']
+    nrf_now = NRF_NEW if scenario in ('sd-present', 'sd-same-version') else NRF_OLD
+    infos = {0xFF: [info_packet(c, 0xFF, STM)], 0xFE: [info_packet(c, 0xFE, NRF_NEW)]}
+    if connect != 'linked':
+        infos = {0xFF: [info_packet(c, 0xFF, STM)] + infos[0xFF], 0xFE: [info_packet(c, 0xFE, nrf_now)] + infos[0xFE]}
+    link, st = mkpeer(c, infos=infos, nack_at=nack_at)
+    if connect == 'linked':
+        bl = real_bootloader(c, link, {0xFF: target_rec(c, 0xFF, *STM), 0xFE: target_rec(c, 0xFE, *nrf_now)})
+    else:
+        bl = c.new(BL + ':Bootloader', None)
+        c.let('bl', bl)
+        c.patch(CL + ':Cloader.scan_for_bootloader', c.ext('scan', returns={'()': 'radio://0/0/2M/B1CAFEBABE' if connect == 'found' else None}))
+    link2 = peer_link(c, st, 'link2', 'radio://0/0/2M/B1CAFEBABE')
+    c.patch('cflib.crtp:get_link_driver', c.ext('get_link_driver', returns={'()': lambda I, a, k: link2}))
+    c.patch(CL + ':Cloader.reset_to_bootloader', c.ext('radio_reset', returns={'()': True}))
+    c.patch(BL + ':Version', c.ext('Version', returns={'()': lambda I, a, k: a[0]}))
+    img = {'stm': c.bytes('image_stm', G['n_stm']), 'nrf': c.bytes('image_nrf', G['n_nrf']),
+           'sd': c.bytes('image_sd', G['n_sd'] + (1 if scenario == 'sd-odd-length' else 0)),
+           'deck': c.bytes('image_deck', 4), 'cf1': c.bytes('image_cf1', 4)}
+    need = {'fw-only': 'sd-s110', 'sd-present': 'sd-s130', 'sd-same-version': 'sd-s130'}.get(scenario, 'sd-s130')
+    arts = [c.namedtuple(BL + ':FlashArtifact', img['stm'], bl_target(c, 'cf2', 'stm32', 'fw'), '2025.02'),
+            c.namedtuple(BL + ':FlashArtifact', img['deck'], bl_target(c, 'deck', 'bcAI:gap8', 'fw'), '2025.02'),
+            c.namedtuple(BL + ':FlashArtifact', img['cf1'], bl_target(c, 'cf1', 'stm32', 'fw'), '2025.02'),
+            c.namedtuple(BL + ':FlashArtifact', img['nrf'], bl_target(c, 'cf2', 'nrf51', 'fw', requires=[need]), '2025.02')]
+    if scenario in ('sd-flashed', 'sd-odd-length', 'sd-same-version'):
+        arts.append(c.namedtuple(BL + ':FlashArtifact', img['sd'], bl_target(c, 'cf2', 'nrf51', 'bootloader+softdevice', provides=['sd-s130']),
+                                 None if scenario == 'sd-same-version' else '1.2'))
+    c.patch(BL + ':Bootloader._get_flash_artifacts_from_zip', c.ext('zipfile', returns={'()': lambda I, a, k: c.list(arts)}))
+    if progress:
+        c.let('pcb', c.ext('progress_cb'))
+        c.snapshot('_', 'setattr(bl, "progress_cb", pcb)')
+    c.virtual_time(clock=[0.125 * i for i in range(64)])
+    return bl, st, img
+
+
+def flash_writes(scenario, G=None):
+    """number of flash-write commands of the whole release"""
+    G = G or REL_SMALL
+    fw = n_writes(G['n_stm'], G['stm'][0], G['stm'][1]) + n_writes(G['n_nrf'], G['old'][0], G['old'][1])
+    return {'fw-only': fw, 'sd-present': fw, 'sd-same-version': fw, 'sd-odd-length': 1, 'sd-missing': 0,
+            'sd-flashed': 1 + n_writes(G['n_sd'], G['old'][0], G['old'][1]) + fw}[scenario]
+
+
+FLASH_WRITES = {sc: flash_writes(sc) for sc in ('fw-only', 'sd-present', 'sd-same-version', 'sd-flashed', 'sd-odd-length', 'sd-missing')}
+assert FLASH_WRITES == {'fw-only': 4, 'sd-present': 4, 'sd-same-version': 4, 'sd-flashed': 7, 'sd-odd-length': 1, 'sd-missing': 0}
+
+
+def flash_expected(scenario, img, G=None):
+    G = G or REL_SMALL
+    STM, NRF_OLD, NRF_NEW = G['stm'], G['old'], G['new']
+    ps = NRF_OLD[0]
+    stm = (0xFF, STM[3], img['stm'], G['n_stm'], STM[0])
+    if scenario == 'fw-only':
+        return [stm, (0xFE, NRF_OLD[3], img['nrf'], G['n_nrf'], ps)]
+    if scenario in ('sd-present', 'sd-same-version'):
+        return [stm, (0xFE, NRF_NEW[3], img['nrf'], G['n_nrf'], ps)]
+    blank = (0xFE, NRF_OLD[3], [0xFF] * ps, ps, ps)
+    if scenario == 'sd-flashed':
+        return [blank, (0xFE, NRF_OLD[2] - G['n_sd'] // ps, img['sd'], G['n_sd'], ps), stm, (0xFE, NRF_NEW[3], img['nrf'], G['n_nrf'], ps)]
+    if scenario == 'sd-odd-length':
+        return [blank]          # OBSERVATION: the firmware page is blanked before the image, placed one page too high, is refused
+    return []
+
+
+def _flash_e2e(scenario, G=None, suffix='', thorough_only=False):
+    G = G or REL_SMALL
+    STM, NRF_OLD, NRF_NEW = G['stm'], G['old'], G['new']
+
+    @contract('C12', 'flash.release.' + scenario + suffix, [BL + ':Bootloader.flash', BL + ':Bootloader._flash_flash', BL + ':Bootloader._internal_flash',
+                                                   BL + ':Bootloader._get_current_nrf51_sd_version', BL + ':Bootloader._get_required_nrf51_sd_version',
+                                                   BL + ':Bootloader._get_provided_nrf51_sd_version', BL + ':Bootloader._get_provided_nrf51_bl_version',
+                                                   BL + ':Bootloader._get_platform_id', CL + ':Cloader.open_bootloader_uri',
+                                                   CL + ':Cloader.check_link_and_get_info', CL + ':Cloader.request_info_update', CL + ':Cloader._update_info',
+                                                   CL + ':Cloader.upload_buffer', CL + ':Cloader.write_flash'],
+              clause=FLASH_CLAUSE, max_paths=6000, thorough_only=thorough_only,
+              bounded='scenario %s: release with a %d-byte STM32 firmware, a %d-byte nRF51 firmware, a deck file and a file of another platform%s; concrete '
+                      'geometries STM32 %r, nRF51 %r -> %r (page size, buffers, flash pages, start page); image contents symbolic; every flash-write '
+                      'acknowledged or any one of them answered negatively; with and without progress callback' % (
+                          scenario, G['n_stm'], G['n_nrf'],
+                                    {'sd-flashed': ' and a bootloader+softdevice image of %d bytes (whole pages) that is needed (s110 running, s130 required)' % G['n_sd'],
+                                     'sd-odd-length': ' and a bootloader+softdevice image of %d bytes (not a whole number of pages) that is needed' % (G['n_sd'] + 1),
+                                     'sd-same-version': ' and a bootloader+softdevice image that is not needed (s130 running, same bootloader version)',
+                                     'sd-present': ' (s130 required and running)', 'sd-missing': ' (s130 required, s110 running, none in the zip)',
+                                     'fw-only': ' (s110 required and running)'}[scenario], STM, NRF_OLD, NRF_NEW))
+    def k(c):
+        nwr = flash_writes(scenario, G)
+        nack_at = c.choice('nack_at', [None] + list(range(nwr)))
+        progress = c.choice('progress', [False, True])
+        bl, st, img = flash_setup(c, scenario, nack_at, progress, G=G)
+        c.reset_trace()
+        c.call((bl, 'flash'), 'release.zip', c.list([]))
+        flash = ghost_flash(c, st['wire'], {0xFF: STM[:3], 0xFE: NRF_OLD[:3]})
+        cmds = [_cmd_of(c, w) for w in st['wire'] if w[0] == 'tx']
+        c.let('cmds', tuple(cmds))
+        if scenario == 'sd-missing':
+            c.ensure('refused-before-anything-is-sent', "raised == 'Exception' and len(cmds) == 0")
+        elif scenario == 'sd-odd-length':
+            c.ensure('ends-with-an-exception', "raised == 'Exception'")
+            c.ensure('nothing-of-the-refused-image-is-sent', 'sum(1 for x in cmds if x == 0x18) <= 1')
+            expect_flash(c, flash, flash_expected(scenario, img, G), complete=False)
+        elif nack_at is None:
+            c.ensure('no-error', 'raised is None')
+            expect_flash(c, flash, flash_expected(scenario, img, G))
+        else:
+            c.ensure('aborts-with-exception', "raised == 'Exception'")
+            c.ensure('nothing-sent-after-the-failed-command', 'len(cmds) > 0 and cmds[-1] == 0x18 and sum(1 for x in cmds if x == 0x18) == %d' % (nack_at + 1))
+            expect_flash(c, flash, flash_expected(scenario, img, G), complete=False)
+    return k
+
+
+for _sc in ('fw-only', 'sd-present', 'sd-same-version', 'sd-flashed', 'sd-odd-length', 'sd-missing'):
+    _flash_e2e(_sc)
+for _sc in ('fw-only', 'sd-flashed', 'sd-odd-length'):       # thorough tier: every page (the blank one too) needs two load-buffer frames
+    _flash_e2e(_sc, REL_FRAMES, '.frames', thorough_only=True)
+
+
+def _flash_full(scenario):
+    @contract('C12', 'flash_full.' + scenario, [BL + ':Bootloader.flash_full', BL + ':Bootloader.start_bootloader', BL + ':Bootloader.flash',
+                                                BL + ':Bootloader.get_target', BL + ':Bootloader._internal_flash', CL + ':Cloader._update_info'],
+              clause=FLASH_CLAUSE + ' - through Bootloader.flash_full (cold boot): the same holds whether the link was open already or the '
+                     'bootloader is found by the scan (then the geometry used is the one the targets report); when no bootloader is found '
+                     'or a flash-write fails, flash_full ends with an exception (it does not go on to restart the firmware as if flashed)',
+              max_paths=6000,
+              bounded='as flash.release.%s; link open and targets known / bootloader found by the (stubbed) scan / not found; every flash-write '
+                      'acknowledged or the first, the third or the last one answered negatively; boot-delay detection and the reset to firmware are stubs' % scenario)
+    def k(c):
+        nwr = FLASH_WRITES[scenario]
+        connect = c.choice('connect', ['linked', 'found', 'not-found'])
+        nack_at = c.choice('nack_at', [None] + sorted(set([0, 2, nwr - 1])))
+        with_info_cb = c.choice('info_cb', [False, True])
+        bl, st, img = flash_setup(c, scenario, nack_at, False, connect)
+        c.patch(BL + ':Bootloader._get_boot_delay', c.ext('boot_delay', returns={'()': 0.0}))
+        c.patch(CL + ':Cloader.reset_to_firmware', c.ext('reset_to_firmware', returns={'()': True}))
+        c.reset_trace()
+        c.call((bl, 'flash_full'), None, 'release.zip', False, c.list([]), c.ext('info_cb') if with_info_cb else None)
+        flash = ghost_flash(c, st['wire'], {0xFF: STM[:3], 0xFE: NRF_OLD[:3]})
+        cmds = [_cmd_of(c, w) for w in st['wire'] if w[0] == 'tx']
+        c.let('cmds', tuple(cmds))
+        if connect == 'not-found':
+            c.ensure('no-bootloader-no-flashing', "raised == 'Exception' and len(cmds) == 0")
+        elif nack_at is None:
+            c.ensure('no-error', 'raised is None')
+            expect_flash(c, flash, flash_expected(scenario, img))
+        else:
+            c.ensure('aborts-with-exception', "raised == 'Exception'")
+            c.ensure('nothing-sent-after-the-failed-command', 'len(cmds) > 0 and cmds[-1] == 0x18 and sum(1 for x in cmds if x == 0x18) == %d' % (nack_at + 1))
+            expect_flash(c, flash, flash_expected(scenario, img), complete=False)
+    return k
+
+
+for _sc in ('fw-only', 'sd-flashed'):
+    _flash_full(_sc)
+
+
+@contract('C12', 'internal_flash.unknown-target', [BL + ':Bootloader._internal_flash', BT + ':TargetTypes.from_string'],
+          clause='an image addressed to a target that is neither "stm32" nor "nrf51" is written nowhere: the flashing ends with an error before '
+                 'anything is sent (it is not silently redirected to one of the two MCUs)',
+          bounded='target names "", "STM32", "nrf52", "bcAI:gap8", "stm32 "; 3-byte image; both MCUs known')
+def internal_flash_unknown_target(c):
+    tname = c.choice('tname', ['', 'STM32', 'nrf52', 'bcAI:gap8', 'stm32 '])
+    image = c.bytes('image', 3)
+    link, st = mkpeer(c)
+    bl = real_bootloader(c, link, {x: target_rec(c, x, *SEQ_GEOM[x]) for x in SEQ_GEOM})
+    has_override = c.choice('has_override', [False, True])
+    c.reset_trace()
+    if has_override:
+        c.call((bl, '_internal_flash'), artifact(c, image, tname), 1, 1, c.int('override', 0, 65535))
+    else:
+        c.call((bl, '_internal_flash'), artifact(c, image, tname))
+    c.let('ntx', len([w for w in st['wire'] if w[0] == 'tx']))
+    c.ensure('error-and-nothing-sent', 'raised is not None and ntx == 0')
